@@ -201,3 +201,12 @@ mod tests {
         })
     }
 }
+
+/// Verification hooks (compiled only with `--cfg scrut_verif`): forwarding wrappers that expose
+/// crate-private leaf functions to the external harness crates. No behaviour of its own.
+#[cfg(scrut_verif)]
+pub mod verif_hooks {
+    pub fn glob_to_regex_string(glob: &str) -> String {
+        super::glob_to_regex_string(glob)
+    }
+}
